@@ -64,7 +64,9 @@ Enabled(o, T) ==
                              /\ \A x \in TNodes(T) : x.a.split = "F"
     [] o.name \in {"punctuation_verylow", "punctuation_symetrify"} -> Did("root_attach")
     [] o.name = "binarize" -> BinarizeEnabled(T)
-    [] o.name = "collapse_unary_chains" -> T.n > 1
+    \* a one-token sentence collapses into a single node that is root and token at once ("may not make
+    \* sense", transform.py): it takes part in the collapse/uncollapse programs, not in free sequences
+    [] o.name = "collapse_unary_chains" -> T.n > 1 \/ Programs # {}
     [] o.name = "uncollapse_unary_chains" -> Len(hist) > 0 /\ hist[Len(hist)].name = "collapse_unary_chains"
     [] o.name = "delete_terminal" -> o.pos <= T.n /\ T.n > 1
     [] o.name = "ptb_delete_traces" -> TracePos(T) \ KeptTraces(T, o, WC) # 1..T.n
